@@ -345,7 +345,7 @@ func (m *mirror) runJob(j Job, seed int64, replay string) (*Report, string, erro
 	// the cooperative scheduler runs one goroutine at a time: a single P avoids futex hand-offs
 	// (measured 1.45x faster); free-running scenarios get real parallelism
 	procs := "GOMAXPROCS=1"
-	for _, pfx := range []string{"hs.agree", "auth.", "udp.route", "wire.udp", "ws.segment", "tls.segment", "tls.large", "codec.", "session.garbage", "dgram.sizes", "cfg.", "adminapi.", "wire.names", "climain.", "redir.tcp", "mux.longlived", "panel.history", "panel.valve", "replay.crosstransport", "sbuf.orders", "sbuf.bfs"} {
+	for _, pfx := range []string{"hs.agree", "auth.", "udp.route", "wire.udp", "ws.segment", "tls.segment", "tls.large", "codec.", "session.garbage", "dgram.sizes", "cfg.", "adminapi.", "wire.names", "climain.", "redir.tcp", "mux.longlived", "ws.textflood", "panel.history", "panel.valve", "replay.crosstransport", "sbuf.orders", "sbuf.bfs"} {
 		if strings.HasPrefix(j.Scenario, pfx) && j.Scenario != "panel.valve.sched" {
 			procs = "GOMAXPROCS=4"
 		}
@@ -403,6 +403,21 @@ func (m *mirror) runJob(j Job, seed int64, replay string) (*Report, string, erro
 	}
 	if len(other) > 0 {
 		logs += strings.Join(other, "\n") + "\n"
+	}
+	if rep == nil && replay == "" && (strings.Contains(logs, "fatal error: ") || strings.Contains(logs, "\npanic: ")) {
+		// the job's process died of something no recover can catch (stack exhaustion, a concurrent map
+		// write, a panic in a goroutine the harness does not own): on a tree where the property holds no job
+		// ever does, so this is reported as a violation, with the head of the crash message
+		head := logs
+		if i := strings.Index(head, "fatal error: "); i >= 0 {
+			head = head[i:]
+		} else if i := strings.Index(head, "\npanic: "); i >= 0 {
+			head = head[i+1:]
+		}
+		if len(head) > 600 {
+			head = head[:600]
+		}
+		return &Report{Job: j, Engine: "crash", CapHit: "the job's process crashed", Violations: []Violation{{Clause: "no-crash", Sig: j.Scenario + paramStr(j.Params) + "|no-crash", Msg: "the process running this job crashed: " + head}}}, logs, nil
 	}
 	if rep == nil {
 		tail := logs
